@@ -276,10 +276,65 @@ leave before its reserve + encode, and none hides them behind a branch: every ca
 theorem gen_writers_unconditional :
     writersWithReturn = ["aws_cbor_encoder_write_float"] ∧ writersWithBranch = [] := by decide
 
+/-! ## the functions the model transcribes, as text
+
+Rendered by gen/cbor_gen.py from the clang AST of the current source (implicit casts and parentheses
+dropped, explicit casts kept, logging collapsed to `LOG;`, fatal assertions to `ASSERT(cond);`).  The
+`expected…` values below are what `Model/Cbor.lean` was written from; the theorems are `rfl`, so any edit
+to one of these functions stops the build here. -/
+
+/-- `s_cbor_decode_next_element` = `decodeNext`; `aws_cbor_decoder_peek_type` = `peekType`;
+`aws_cbor_decoder_consume_next_whole_data_item` = `consumeWhole` / `consumeBody` / `iter` / `breakLoop` /
+`untilBreak`; `aws_cbor_decoder_consume_next_single_element` = `consumeSingle` -/
+def expectedDecoderBodies : List (String × String) := [
+  ("s_cbor_decode_next_element", "{result=cbor_stream_decode(decoder->src.ptr,decoder->src.len,&s_callbacks,decoder); switch(result.status){case CBOR_DECODER_NEDATA:LOG; (decoder->error_code=AWS_ERROR_INVALID_CBOR); break; case CBOR_DECODER_ERROR:LOG; (decoder->error_code=AWS_ERROR_INVALID_CBOR); break; default:break;} if(decoder->error_code){return aws_raise_error(decoder->error_code);} aws_byte_cursor_advance(&decoder->src,result.read); return 0;}"),
+  ("aws_cbor_decoder_peek_type", "{if(decoder->error_code){return aws_raise_error(decoder->error_code);} if((decoder->cached_context.type!=AWS_CBOR_TYPE_UNKNOWN)){(*out_type=decoder->cached_context.type); return 0;} if(s_cbor_decode_next_element(decoder)){return -1;} (*out_type=decoder->cached_context.type); return 0;}"),
+  ("aws_cbor_decoder_consume_next_whole_data_item", "{if(decoder->error_code){return aws_raise_error(decoder->error_code);} if((decoder->cached_context.type==AWS_CBOR_TYPE_UNKNOWN)){if(s_cbor_decode_next_element(decoder)){return -1;}} switch(decoder->cached_context.type){case AWS_CBOR_TYPE_TAG:(decoder->cached_context.type=AWS_CBOR_TYPE_UNKNOWN); if(aws_cbor_decoder_consume_next_whole_data_item(decoder)){return -1;} break; case AWS_CBOR_TYPE_MAP_START:{num_map_item=decoder->cached_context.u.map_start; (decoder->cached_context.type=AWS_CBOR_TYPE_UNKNOWN); for(i=0;;;(i<num_map_item);i++){if(aws_cbor_decoder_consume_next_whole_data_item(decoder)){return -1;} if(aws_cbor_decoder_consume_next_whole_data_item(decoder)){return -1;}} break;} case AWS_CBOR_TYPE_ARRAY_START:{num_array_item=decoder->cached_context.u.array_start; (decoder->cached_context.type=AWS_CBOR_TYPE_UNKNOWN); for(i=0;;;(i<num_array_item);i++){if(aws_cbor_decoder_consume_next_whole_data_item(decoder)){return -1;}} break;} case AWS_CBOR_TYPE_INDEF_BYTES_START:case AWS_CBOR_TYPE_INDEF_TEXT_START:case AWS_CBOR_TYPE_INDEF_ARRAY_START:case AWS_CBOR_TYPE_INDEF_MAP_START:{next_type=?; (decoder->cached_context.type=AWS_CBOR_TYPE_UNKNOWN); if(aws_cbor_decoder_peek_type(decoder,&next_type)){return -1;} while((next_type!=AWS_CBOR_TYPE_BREAK)){if(aws_cbor_decoder_consume_next_whole_data_item(decoder)){return -1;} if(aws_cbor_decoder_peek_type(decoder,&next_type)){return -1;}} break;} default:break;} (decoder->cached_context.type=AWS_CBOR_TYPE_UNKNOWN); return 0;}"),
+  ("aws_cbor_decoder_consume_next_single_element", "{out_type=0; if(aws_cbor_decoder_peek_type(decoder,&out_type)){return -1;} (decoder->cached_context.type=AWS_CBOR_TYPE_UNKNOWN); return 0;}")]
+
+theorem gen_decoder_bodies : decoderBodies = expectedDecoderBodies := rfl
+
+/-- the nine expansions of `GET_NEXT_ITEM` = `popWith sel…`: sticky error first, then the cache, then one decode; a
+type mismatch raises UNEXPECTED_TYPE and leaves the cache; a match clears the cache and hands out the union field -/
+def expectedPopBodies : List (String × String × String) := [
+  ("unsigned_int_val", "AWS_CBOR_TYPE_UINT", "{if(decoder->error_code){return aws_raise_error(decoder->error_code);} if((decoder->cached_context.type!=AWS_CBOR_TYPE_UNKNOWN)){goto;} if(s_cbor_decode_next_element(decoder)){return -1;} decode_done:if((decoder->cached_context.type!=AWS_CBOR_TYPE_UINT)){LOG; return aws_raise_error(AWS_ERROR_CBOR_UNEXPECTED_TYPE);}else{(decoder->cached_context.type=AWS_CBOR_TYPE_UNKNOWN); (*out=decoder->cached_context.u.unsigned_int_val);} return 0;}"),
+  ("negative_int_val", "AWS_CBOR_TYPE_NEGINT", "{if(decoder->error_code){return aws_raise_error(decoder->error_code);} if((decoder->cached_context.type!=AWS_CBOR_TYPE_UNKNOWN)){goto;} if(s_cbor_decode_next_element(decoder)){return -1;} decode_done:if((decoder->cached_context.type!=AWS_CBOR_TYPE_NEGINT)){LOG; return aws_raise_error(AWS_ERROR_CBOR_UNEXPECTED_TYPE);}else{(decoder->cached_context.type=AWS_CBOR_TYPE_UNKNOWN); (*out=decoder->cached_context.u.negative_int_val);} return 0;}"),
+  ("float_val", "AWS_CBOR_TYPE_FLOAT", "{if(decoder->error_code){return aws_raise_error(decoder->error_code);} if((decoder->cached_context.type!=AWS_CBOR_TYPE_UNKNOWN)){goto;} if(s_cbor_decode_next_element(decoder)){return -1;} decode_done:if((decoder->cached_context.type!=AWS_CBOR_TYPE_FLOAT)){LOG; return aws_raise_error(AWS_ERROR_CBOR_UNEXPECTED_TYPE);}else{(decoder->cached_context.type=AWS_CBOR_TYPE_UNKNOWN); (*out=decoder->cached_context.u.float_val);} return 0;}"),
+  ("boolean_val", "AWS_CBOR_TYPE_BOOL", "{if(decoder->error_code){return aws_raise_error(decoder->error_code);} if((decoder->cached_context.type!=AWS_CBOR_TYPE_UNKNOWN)){goto;} if(s_cbor_decode_next_element(decoder)){return -1;} decode_done:if((decoder->cached_context.type!=AWS_CBOR_TYPE_BOOL)){LOG; return aws_raise_error(AWS_ERROR_CBOR_UNEXPECTED_TYPE);}else{(decoder->cached_context.type=AWS_CBOR_TYPE_UNKNOWN); (*out=decoder->cached_context.u.boolean_val);} return 0;}"),
+  ("text_val", "AWS_CBOR_TYPE_TEXT", "{if(decoder->error_code){return aws_raise_error(decoder->error_code);} if((decoder->cached_context.type!=AWS_CBOR_TYPE_UNKNOWN)){goto;} if(s_cbor_decode_next_element(decoder)){return -1;} decode_done:if((decoder->cached_context.type!=AWS_CBOR_TYPE_TEXT)){LOG; return aws_raise_error(AWS_ERROR_CBOR_UNEXPECTED_TYPE);}else{(decoder->cached_context.type=AWS_CBOR_TYPE_UNKNOWN); (*out=decoder->cached_context.u.text_val);} return 0;}"),
+  ("bytes_val", "AWS_CBOR_TYPE_BYTES", "{if(decoder->error_code){return aws_raise_error(decoder->error_code);} if((decoder->cached_context.type!=AWS_CBOR_TYPE_UNKNOWN)){goto;} if(s_cbor_decode_next_element(decoder)){return -1;} decode_done:if((decoder->cached_context.type!=AWS_CBOR_TYPE_BYTES)){LOG; return aws_raise_error(AWS_ERROR_CBOR_UNEXPECTED_TYPE);}else{(decoder->cached_context.type=AWS_CBOR_TYPE_UNKNOWN); (*out=decoder->cached_context.u.bytes_val);} return 0;}"),
+  ("map_start", "AWS_CBOR_TYPE_MAP_START", "{if(decoder->error_code){return aws_raise_error(decoder->error_code);} if((decoder->cached_context.type!=AWS_CBOR_TYPE_UNKNOWN)){goto;} if(s_cbor_decode_next_element(decoder)){return -1;} decode_done:if((decoder->cached_context.type!=AWS_CBOR_TYPE_MAP_START)){LOG; return aws_raise_error(AWS_ERROR_CBOR_UNEXPECTED_TYPE);}else{(decoder->cached_context.type=AWS_CBOR_TYPE_UNKNOWN); (*out=decoder->cached_context.u.map_start);} return 0;}"),
+  ("array_start", "AWS_CBOR_TYPE_ARRAY_START", "{if(decoder->error_code){return aws_raise_error(decoder->error_code);} if((decoder->cached_context.type!=AWS_CBOR_TYPE_UNKNOWN)){goto;} if(s_cbor_decode_next_element(decoder)){return -1;} decode_done:if((decoder->cached_context.type!=AWS_CBOR_TYPE_ARRAY_START)){LOG; return aws_raise_error(AWS_ERROR_CBOR_UNEXPECTED_TYPE);}else{(decoder->cached_context.type=AWS_CBOR_TYPE_UNKNOWN); (*out=decoder->cached_context.u.array_start);} return 0;}"),
+  ("tag_val", "AWS_CBOR_TYPE_TAG", "{if(decoder->error_code){return aws_raise_error(decoder->error_code);} if((decoder->cached_context.type!=AWS_CBOR_TYPE_UNKNOWN)){goto;} if(s_cbor_decode_next_element(decoder)){return -1;} decode_done:if((decoder->cached_context.type!=AWS_CBOR_TYPE_TAG)){LOG; return aws_raise_error(AWS_ERROR_CBOR_UNEXPECTED_TYPE);}else{(decoder->cached_context.type=AWS_CBOR_TYPE_UNKNOWN); (*out=decoder->cached_context.u.tag_val);} return 0;}")]
+
+theorem gen_pop_bodies : popBodies = expectedPopBodies := rfl
+
+/-- the `ENCODE_THROUGH_LIBCBOR` expansion (reserve, assert, encode at position / remaining, assert non-zero, advance
+`len`) as it appears in `write_uint`; `aws_cbor_encoder_write_float` = `narrow` / `intPath` / `toFloat32?`;
+`write_bytes` / `write_text` = head then `aws_byte_buf_append`; `write_bool`'s choice; the type-only switch -/
+def expectedEncoderBodies : List (String × String) := [
+  ("aws_cbor_encoder_write_uint", "{do{error=aws_byte_buf_reserve_smart_relative(&encoder->encoded_buf,s_cbor_element_width_64bit); error; ASSERT(!(error==AWS_ERROR_SUCCESS)); encoded_len=cbor_encode_uint(value,s_get_encoder_current_position(encoder),s_get_encoder_remaining_len(encoder)); ASSERT(!(encoded_len!=0)); (encoder->encoded_buf.len+=encoded_len);}while(0);}"),
+  ("aws_cbor_encoder_write_float", "{if(!__builtin_isfinite(value)){aws_cbor_encoder_write_single_float(encoder,(float)value); return ;} if(((value<=(double)9223372036854775807)&&(value>=(double)(-9223372036854775807-1)))){int_value=(int64_t)value; if((value==(double)int_value)){if((int_value<0)){aws_cbor_encoder_write_negint(encoder,(uint64_t)(-1-int_value));}else{aws_cbor_encoder_write_uint(encoder,(uint64_t)int_value);} return ;}} if(((value<=3.40282347E+38)&&(value>=-3.40282347E+38))){float_value=(float)value; converted_value=(double)float_value; if((value==converted_value)){aws_cbor_encoder_write_single_float(encoder,float_value); return ;}} do{error=aws_byte_buf_reserve_smart_relative(&encoder->encoded_buf,s_cbor_element_width_64bit); error; ASSERT(!(error==AWS_ERROR_SUCCESS)); encoded_len=cbor_encode_double(value,s_get_encoder_current_position(encoder),s_get_encoder_remaining_len(encoder)); ASSERT(!(encoded_len!=0)); (encoder->encoded_buf.len+=encoded_len);}while(0);}"),
+  ("aws_cbor_encoder_write_bytes", "{do{error=aws_byte_buf_reserve_smart_relative(&encoder->encoded_buf,(s_cbor_element_width_64bit+from.len)); error; ASSERT(!(error==AWS_ERROR_SUCCESS)); encoded_len=cbor_encode_bytestring_start(from.len,s_get_encoder_current_position(encoder),s_get_encoder_remaining_len(encoder)); ASSERT(!(encoded_len!=0)); (encoder->encoded_buf.len+=encoded_len);}while(0); aws_byte_buf_append(&encoder->encoded_buf,&from);}"),
+  ("aws_cbor_encoder_write_text", "{do{error=aws_byte_buf_reserve_smart_relative(&encoder->encoded_buf,(s_cbor_element_width_64bit+from.len)); error; ASSERT(!(error==AWS_ERROR_SUCCESS)); encoded_len=cbor_encode_string_start(from.len,s_get_encoder_current_position(encoder),s_get_encoder_remaining_len(encoder)); ASSERT(!(encoded_len!=0)); (encoder->encoded_buf.len+=encoded_len);}while(0); aws_byte_buf_append(&encoder->encoded_buf,&from);}"),
+  ("aws_cbor_encoder_write_bool", "{ctrl_value=((value==1)?AWS_CBOR_SIMPLE_VAL_TRUE:AWS_CBOR_SIMPLE_VAL_FALSE); do{error=aws_byte_buf_reserve_smart_relative(&encoder->encoded_buf,1); error; ASSERT(!(error==AWS_ERROR_SUCCESS)); encoded_len=cbor_encode_ctrl(ctrl_value,s_get_encoder_current_position(encoder),s_get_encoder_remaining_len(encoder)); ASSERT(!(encoded_len!=0)); (encoder->encoded_buf.len+=encoded_len);}while(0);}"),
+  ("s_cbor_encoder_write_type_only", "{aws_byte_buf_reserve_smart_relative(&encoder->encoded_buf,1); encoded_len=0; switch(type){case AWS_CBOR_TYPE_INDEF_BYTES_START:(encoded_len=cbor_encode_indef_bytestring_start(s_get_encoder_current_position(encoder),s_get_encoder_remaining_len(encoder))); break; case AWS_CBOR_TYPE_INDEF_TEXT_START:(encoded_len=cbor_encode_indef_string_start(s_get_encoder_current_position(encoder),s_get_encoder_remaining_len(encoder))); break; case AWS_CBOR_TYPE_INDEF_ARRAY_START:(encoded_len=cbor_encode_indef_array_start(s_get_encoder_current_position(encoder),s_get_encoder_remaining_len(encoder))); break; case AWS_CBOR_TYPE_INDEF_MAP_START:(encoded_len=cbor_encode_indef_map_start(s_get_encoder_current_position(encoder),s_get_encoder_remaining_len(encoder))); break; case AWS_CBOR_TYPE_BREAK:(encoded_len=cbor_encode_break(s_get_encoder_current_position(encoder),s_get_encoder_remaining_len(encoder))); break; default:; break;} ; (encoder->encoded_buf.len+=encoded_len);}")]
+
+theorem gen_encoder_bodies : encoderBodies = expectedEncoderBodies := rfl
+
+/-- `aws_byte_buf_append` (fails without writing when the room is short, else copies and advances `len`),
+`aws_byte_buf_reserve` (capacity becomes exactly the request), `aws_byte_buf_reset` (`len = 0`) -/
+def expectedByteBufBodies : List (String × String) := [
+  ("aws_byte_buf_append", "{; ; if(((to->capacity-to->len)<from->len)){; ; return aws_raise_error(AWS_ERROR_DEST_COPY_TOO_SMALL);} if((from->len>0)){; ; memcpy((to->buffer+to->len),from->ptr,from->len); (to->len+=from->len);} ; ; return 0;}"),
+  ("aws_byte_buf_reserve", "{do{if(!buffer->allocator){return aws_raise_error(AWS_ERROR_INVALID_ARGUMENT);}}while(0); do{if(!aws_byte_buf_is_valid(buffer)){return aws_raise_error(AWS_ERROR_INVALID_ARGUMENT);}}while(0); if((requested_capacity<=buffer->capacity)){; return 0;} if(((!buffer->buffer&&!buffer->capacity)&&(requested_capacity>buffer->capacity))){if(aws_byte_buf_init(buffer,buffer->allocator,requested_capacity)){return -1;} ; return 0;} if(aws_mem_realloc(buffer->allocator,(void **)&buffer->buffer,buffer->capacity,requested_capacity)){return -1;} (buffer->capacity=requested_capacity); ; return 0;}"),
+  ("aws_byte_buf_reset", "{if(zero_contents){aws_byte_buf_secure_zero(buf);} (buf->len=0);}")]
+
+theorem gen_bytebuf_bodies : byteBufBodies = expectedByteBufBodies := rfl
+
 /-! ## `aws_byte_buf_reserve_smart` (byte_buf.c), regenerated -/
 
 /-- after `reserve_smart(requested)` the capacity covers the request -/
-theorem gen_reserve_smart_ge (cap req : Nat) (hc : cap < 2^64) (hr : req < 2^64) : req ≤ reserveSmartCap cap req := by
+theorem gen_reserve_smart_ge (cap req : Nat) (_hc : cap < 2^64) (hr : req < 2^64) : req ≤ reserveSmartCap cap req := by
   unfold reserveSmartCap aws_max_size aws_add_size_saturating aws_add_u64_saturating
   simp only
   repeat' split
